@@ -48,6 +48,7 @@ def panic_signature(p):
     msg = p.get("msg", "")
     msg = re.sub(r"'[^']*'", "'_'", msg)
     msg = re.sub(r'"[^"]*"', '"_"', msg)
+    msg = re.sub(r"`[^`]*`", "`_`", msg)
     msg = re.sub(r"\d+", "N", msg)
     msg = msg[:80]
     return "panic:%s:%s" % (frame, msg)
